@@ -208,7 +208,7 @@ package statefulset
 //@ spec func pvcName(t string, s *apps.StatefulSet, o int) string = sprintf("%s-%s-%d", t, s.Name, o)
 //@ spec func podIdentity(s *apps.StatefulSet, p *v1.Pod, o int) bool = p.Name == sprintf("%s-%d", s.Name, o) && p.Namespace == s.Namespace && p.Spec.Hostname == p.Name && p.Spec.Subdomain == s.Spec.ServiceName && p.Labels != nil && p.Labels.has(PodNameLabel) && p.Labels[PodNameLabel] == p.Name && len(p.OwnerReferences) == 1 && p.OwnerReferences[0].UID == s.UID && p.OwnerReferences[0].Name == s.Name && p.OwnerReferences[0].Kind == "StatefulSet" && p.OwnerReferences[0].Controller != nil && deref(p.OwnerReferences[0].Controller)
 //@ spec func boundTo(p *v1.Pod, j int, t string, claim string) bool = 0 <= j && j < len(p.Spec.Volumes) && p.Spec.Volumes[j].Name == t && p.Spec.Volumes[j].VolumeSource.PersistentVolumeClaim != nil && p.Spec.Volumes[j].VolumeSource.PersistentVolumeClaim.ClaimName == claim
-//@ spec func podStorage(s *apps.StatefulSet, p *v1.Pod, o int) bool = forall t int :: {s.Spec.VolumeClaimTemplates[t].Name} 0 <= t && t < len(s.Spec.VolumeClaimTemplates) ==> (exists j int :: {p.Spec.Volumes[j]} boundTo(p, j, s.Spec.VolumeClaimTemplates[t].Name, pvcName(s.Spec.VolumeClaimTemplates[t].Name, s, o)))
+//@ spec func podStorage(s *apps.StatefulSet, p *v1.Pod, o int) bool = forall t int :: {s.Spec.VolumeClaimTemplates[t].Name} 0 <= t && t < len(s.Spec.VolumeClaimTemplates) ==> (exists j int :: {p.Spec.Volumes[j].Name} boundTo(p, j, s.Spec.VolumeClaimTemplates[t].Name, pvcName(s.Spec.VolumeClaimTemplates[t].Name, s, o)))
 // tmplLabels(s, m): m is the label map of one of s's volume claim templates (getPersistentVolumeClaims writes the selector's labels into those maps in place)
 //@ spec func tmplLabels(s *apps.StatefulSet, m gomap[string]string) bool = exists t int :: {s.Spec.VolumeClaimTemplates[t].Labels} 0 <= t && t < len(s.Spec.VolumeClaimTemplates) && s.Spec.VolumeClaimTemplates[t].Labels == m
 //@ spec func coversSelector(s *apps.StatefulSet, m map[string]string) bool = forall k string :: {s.Spec.Selector.MatchLabels.has(k)} s.Spec.Selector.MatchLabels.has(k) ==> m != nil && m.has(k) && m[k] == s.Spec.Selector.MatchLabels[k]
@@ -290,19 +290,42 @@ package statefulset
 //@   requires set != nil && pod != nil
 //@   pure
 //@   ensures [C06] result == (ordOf(pod) >= 0 && set.Name == parentName(pod.Name) && pod.Name == sprintf("%s-%d", set.Name, ordOf(pod)) && pod.Namespace == set.Namespace && ite(pod.Labels != nil && pod.Labels.has(PodNameLabel), pod.Labels[PodNameLabel], "") == pod.Name)
+// volsDistinct(p): the pod's volume names are pairwise different (API validation of pod specs)
+//@ spec func volsDistinct(p *v1.Pod) bool = forall a int, b int :: {p.Spec.Volumes[a].Name, p.Spec.Volumes[b].Name} 0 <= a && a < b && b < len(p.Spec.Volumes) ==> p.Spec.Volumes[a].Name != p.Spec.Volumes[b].Name
 //@ func storageMatches
 //@   requires set != nil && pod != nil
 //@   pure
-//@   loop 1 "range pod.Spec.Volumes"
+//@   ensures [C06] sound: result ==> ordOf(pod) >= 0 && podStorage(set, pod, ordOf(pod))
+//@   ensures [C02,C06] complete: volsDistinct(pod) && ordOf(pod) >= 0 && podStorage(set, pod, ordOf(pod)) ==> result
+//@   ghost var VI map[string]int   -- index in pod.Spec.Volumes of the volume stored under a name
+//@   ghost var WT map[int]int      -- index of the volume found for template t
+//@   at loopend 1: ghost VI = store(VI, volume.Name, i - 1)   -- at loopend the index alias already denotes the next index
+//@   at loopend 2: ghost WT = store(WT, t - 1, VI[claim.Name])
+//@   loop 1 "range pod.Spec.Volumes" index i
 //@     invariant volumes != nil && fresh(volumes)
-//@   loop 2 "range set.Spec.VolumeClaimTemplates"
+//@     invariant forall n string :: {volumes.has(n)} volumes.has(n) ==> 0 <= VI[n] && VI[n] < i && pod.Spec.Volumes[VI[n]].Name == n && volumes[n] == pod.Spec.Volumes[VI[n]]
+//@     invariant forall j int :: {pod.Spec.Volumes[j].Name} 0 <= j && j < i ==> volumes.has(pod.Spec.Volumes[j].Name)
+//@   loop 2 "range set.Spec.VolumeClaimTemplates" index t
 //@     invariant volumes != nil && fresh(volumes)
+//@     invariant forall n string :: {volumes.has(n)} volumes.has(n) ==> 0 <= VI[n] && VI[n] < len(pod.Spec.Volumes) && pod.Spec.Volumes[VI[n]].Name == n && volumes[n] == pod.Spec.Volumes[VI[n]]
+//@     invariant forall j int :: {pod.Spec.Volumes[j].Name} 0 <= j && j < len(pod.Spec.Volumes) ==> volumes.has(pod.Spec.Volumes[j].Name)
+//@     invariant [C06] forall u int :: {set.Spec.VolumeClaimTemplates[u].Name} 0 <= u && u < t ==> boundTo(pod, WT[u], set.Spec.VolumeClaimTemplates[u].Name, pvcName(set.Spec.VolumeClaimTemplates[u].Name, set, ordOf(pod)))
 
 // partitionOf: the rolling-update partition; an absent block or partition means 0, a negative one selects every ordinal
 //@ spec func partitionOf(s *apps.StatefulSet) int = ite(s.Spec.UpdateStrategy.RollingUpdate == nil || s.Spec.UpdateStrategy.RollingUpdate.Partition == nil, 0, ite(deref(s.Spec.UpdateStrategy.RollingUpdate.Partition) < 0, 0, deref(s.Spec.UpdateStrategy.RollingUpdate.Partition)))
 //@ spec func isNewP(p *v1.Pod) bool = p >= gAlloc0 && !isCreatedS(p) && !isTerminatingS(p)
 //@ spec func inRangeE(o int, rc int, E set[int]) bool = 0 <= o && o < rc && !E[o]
 
+// ---- quiescence at the fixed point (C02, the safety half) ------------------------------------------------------------
+// settledP: a snapshot pod that needs nothing: at a desired ordinal, Running and Ready and not terminating, at the revision
+// its ordinal calls for, with the identity and the storage of its ordinal.  finalSnap: every snapshot pod is settled and
+// every desired ordinal is occupied.  In such a state a reconcile issues no create, delete or update of a pod.
+//@ spec func desiredOf(s *apps.StatefulSet, o int) bool = desired(deref(s.Spec.Replicas), slotsAnn(ifaceOf(s, "*apps.StatefulSet")), o)
+//@ spec func idOK(s *apps.StatefulSet, p *v1.Pod) bool = ordOf(p) >= 0 && s.Name == parentName(p.Name) && p.Name == sprintf("%s-%d", s.Name, ordOf(p)) && p.Namespace == s.Namespace && ite(p.Labels != nil && p.Labels.has(PodNameLabel), p.Labels[PodNameLabel], "") == p.Name
+//@ spec func settledP(s *apps.StatefulSet, p *v1.Pod, upd string) bool = ordOf(p) >= 0 && desiredOf(s, ordOf(p)) && isCreatedS(p) && isHealthyS(p) && !(s.Spec.UpdateStrategy.Type == "RollingUpdate" && ordOf(p) >= partitionOf(s) && revOf(p) != upd) && idOK(s, p) && volsDistinct(p) && podStorage(s, p, ordOf(p))
+//@ spec func finalSnap(s *apps.StatefulSet, ps []*v1.Pod, upd string) bool = (forall k int :: {ps[k]} 0 <= k && k < len(ps) ==> settledP(s, ps[k], upd)) && (forall o int32 :: {count(slotsAnn(ifaceOf(s, "*apps.StatefulSet")), 0, o)} desiredOf(s, o) ==> 0 <= occ(ps, o) && occ(ps, o) < len(ps) && ordOf(ps[occ(ps, o)]) == o)
+// occ(ps, o): index of the snapshot pod occupying ordinal o (a witness function: uninterpreted, constrained only inside finalSnap)
+//@ spec func occ(ps []*v1.Pod, o int) int
 //@ func defaultStatefulSetControl.updateStatefulSet
 //@   lemmas count_bound, count_store, count_ext, count_mono, count_member, count_full, count_all, count_missing
 //@   profiles defaulted, crd
@@ -318,6 +341,14 @@ package statefulset
 //@   profile defaulted requires set.Spec.UpdateStrategy.Type == "RollingUpdate" || set.Spec.UpdateStrategy.Type == "OnDelete"
 //@   at entry: ghost gSnap = pods; ghost gR = deref(set.Spec.Replicas); ghost gStrategy = set.Spec.UpdateStrategy.Type
 //@   at entry: ghost gPartition = partitionOf(set)
+//@   ghost var fin bool   -- the snapshot is a fixed point (C02): every pod settled, every desired ordinal occupied
+//@   at entry: ghost fin = finalSnap(set, pods, updateRevision.Name)
+//@   at call identityMatches#1 before: assert [C02] finwitness: fin ==> 0 <= sidx[replicas[i]] && sidx[replicas[i]] < len(pods) && pods[sidx[replicas[i]]] == replicas[i]
+//@   at call identityMatches#1 before: assert [C02] finid: fin ==> idOK(set, replicas[i])
+//@   at call identityMatches#1 before: assert [C02] finvols: fin ==> volsDistinct(replicas[i])
+//@   at call identityMatches#1 before: assert snapkept: forall k int :: {pods[k]} 0 <= k && k < len(pods) ==> pods[k].Spec.Volumes == old(pods[k].Spec.Volumes) && pods[k].Name == old(pods[k].Name)
+//@   at call identityMatches#1 before: assert setkept: set.Name == old(set.Name) && set.Spec.VolumeClaimTemplates == old(set.Spec.VolumeClaimTemplates)
+//@   at call identityMatches#1 before: assert [C02] finstorage: fin ==> ordOf(replicas[i]) >= 0 && podStorage(set, replicas[i], ordOf(replicas[i]))
 //@   at call ApplyRevision#1 before: ghost gTmplLo = allocMark()
 //@   at call ApplyRevision#2 after: ghost gTmplHi = allocMark()
 //@   at call newVersionedStatefulSetPod#2 after: assert [C12] censusafternew: forall k int :: {pods[k]} {rdyI[k]} {curI[k]} {updI[k]} 0 <= k && k < len(pods) ==> (rdyI[k] <==> isRunningAndReadyS(pods[k])) && (curI[k] <==> (isCreatedS(pods[k]) && !isTerminatingS(pods[k]) && revOf(pods[k]) == gCurRev)) && (updI[k] <==> (isCreatedS(pods[k]) && !isTerminatingS(pods[k]) && revOf(pods[k]) == gUpdRev))
@@ -368,6 +399,8 @@ package statefulset
 //@   profile defaulted ensures [C09] reported: gCtlFails > old(gCtlFails) ==> err != nil
 //@   profile defaulted ensures [C09] origin: err != nil ==> gCtlFails > old(gCtlFails) || errLocal(err)
 //@   profile defaulted ensures [C11] deletingnotouch: set.DeletionTimestamp != nil ==> gPodTouch == old(gPodTouch) && gWrites == old(gWrites)
+//@   profile defaulted ensures [C02] quiet: fin ==> gNact == 0 && gPodTouch == old(gPodTouch) && gWrites == old(gWrites)
+//@   profile defaulted ensures [C02] fixedstatus: fin && err == nil ==> statusp.Replicas == len(pods) && statusp.ReadyReplicas == len(pods)
 //@   profile defaulted ensures [C09] writesgrow: gWrites >= old(gWrites) && gPodTouch >= old(gPodTouch) && gCtlFails >= old(gCtlFails)
 //@   profile defaulted ensures [C12] bounds: err == nil ==> 0 <= statusp.ReadyReplicas && statusp.ReadyReplicas <= statusp.Replicas && 0 <= statusp.CurrentReplicas && statusp.CurrentReplicas <= statusp.Replicas && 0 <= statusp.UpdatedReplicas && statusp.UpdatedReplicas <= statusp.Replicas
 //@   profile defaulted ensures [C12] generation: statusp != nil ==> statusp.ObservedGeneration == set.Generation && statusp.CurrentRevision == currentRevision.Name && statusp.UpdateRevision == updateRevision.Name
@@ -381,6 +414,7 @@ package statefulset
 //@   profile defaulted ensures [C14] burstcreates: err == nil && !gMonotonic && !gDeleting ==> (forall o int32 :: {gCreated[o]} vacant(o) ==> gCreated[o])
 //@   profile defaulted ensures [C14] burstdeletes: err == nil && !gMonotonic && !gDeleting ==> (forall k int :: {gSnap[k]} 0 <= k && k < len(gSnap) && condemnedP(gSnap[k]) && !isTerminatingS(gSnap[k]) ==> gDeleted[gSnap[k]])
 //@   loop 1 "range pods"
+//@     invariant [C02] nocondemnedq: fin ==> len(condemned) == 0
 //@     invariant len(replicas) == replicaCount && 0 <= len(condemned) && len(condemned) <= i
 //@     invariant statusrange: status.Replicas == i && 0 <= status.ReadyReplicas && status.ReadyReplicas <= i && 0 <= status.CurrentReplicas && status.CurrentReplicas <= i && 0 <= status.UpdatedReplicas && status.UpdatedReplicas <= i
 //@     invariant [C01,C03,C04,C05,C07,C12,C14] placedsnap: forall o int :: {replicas[o]} 0 <= o && o < replicaCount && replicas[o] != nil ==> inSnap(replicas[o]) && ordOf(replicas[o]) == o
@@ -393,6 +427,7 @@ package statefulset
 //@     invariant [C12] condemnedsrc: forall j int :: {condemned[j]} {csrc[j]} 0 <= j && j < len(condemned) ==> 0 <= csrc[j] && csrc[j] < i && condemned[j] == pods[csrc[j]]
 //@     invariant [C12] condemnedinc: forall a int, b int :: {csrc[a], csrc[b]} 0 <= a && a < b && b < len(condemned) ==> csrc[a] < csrc[b]
 //@   loop 2 "for ord := 0; ord < replicaCount"
+//@     invariant [C02] nonewq: fin ==> (forall o int :: {replicas[o]} 0 <= o && o < replicaCount && replicas[o] != nil ==> inSnap(replicas[o]))
 //@     invariant 0 <= ord && ord <= replicaCount && len(replicas) == replicaCount
 //@     invariant alloc: forall o int :: {replicas[o]} 0 <= o && o < replicaCount ==> allocated(replicas[o])
 //@     invariant [C01,C03,C04,C05,C07,C12,C14] placedord: forall o int :: {replicas[o]} 0 <= o && o < replicaCount && replicas[o] != nil ==> ordOf(replicas[o]) == o && (inSnap(replicas[o]) || isNewP(replicas[o]))
@@ -413,6 +448,8 @@ package statefulset
 //@     invariant unhealthy >= 0 && (unhealthy > 0 ==> firstUnhealthyPod != nil)
 //@     invariant counted: forall j int :: {condemned[j]} 0 <= j && j < i && !isHealthyS(condemned[j]) ==> unhealthy > 0
 //@   loop 5 "range replicas"
+//@     invariant [C02] quietsofar: fin ==> gNact == 0 && gPodTouch == old(gPodTouch) && gWrites == old(gWrites)
+//@     invariant [C02] nonewq: fin ==> (forall o int :: {replicas[o]} 0 <= o && o < replicaCount && replicas[o] != nil ==> inSnap(replicas[o]))
 //@     invariant len(replicas) == replicaCount && !gDeleting && gUpdDeletes == 0
 //@     invariant [C09] writes: gWrites >= old(gWrites) && gPodTouch >= old(gPodTouch) && gCtlFails == old(gCtlFails)
 //@     invariant alloc: forall o int :: {replicas[o]} 0 <= o && o < replicaCount ==> allocated(replicas[o])
@@ -445,6 +482,7 @@ package statefulset
 //@     invariant [C12] newcreated: forall o int :: {replicas[o]} 0 <= o && o < i && replicas[o] != nil && !inSnap(replicas[o]) ==> gCreated[o]
 //@     invariant [C14] burstcreated: !gMonotonic ==> (forall o int :: {gCreated[o]} 0 <= o && o < i && vacant(o) ==> gCreated[o])
 //@   loop 6 "for target := len(condemned) - 1; target >= 0"
+//@     invariant [C02] quietsofar: fin ==> gNact == 0 && gPodTouch == old(gPodTouch) && gWrites == old(gWrites)
 //@     invariant 0 - 1 <= target && target < len(condemned) && !gDeleting && gUpdDeletes == 0
 //@     invariant [C09] writes: gWrites >= old(gWrites) && gPodTouch >= old(gPodTouch) && gCtlFails == old(gCtlFails)
 //@     invariant statusrange: 0 - replicaCount - (len(condemned) - 1 - target) <= status.CurrentReplicas && 0 - replicaCount - (len(condemned) - 1 - target) <= status.UpdatedReplicas
@@ -473,9 +511,12 @@ package statefulset
 //@   ghost var old7Updated int
 //@   at loopstart 7: ghost old7Replicas = status.Replicas; ghost old7Ready = status.ReadyReplicas; ghost old7Current = status.CurrentReplicas; ghost old7Updated = status.UpdatedReplicas
 //@   loop 7 "for target := len(replicas) - 1; target >= updateMin"
+//@     invariant [C02] quietsofar: fin ==> gNact == 0 && gPodTouch == old(gPodTouch) && gWrites == old(gWrites)
+//@     invariant [C02] nonewq: fin ==> (forall o int :: {replicas[o]} 0 <= o && o < replicaCount && replicas[o] != nil ==> inSnap(replicas[o]))
 //@     invariant target <= len(replicas) - 1 && gUpdDeletes == 0 && (gMonotonic ==> gNact == 0)
 //@     invariant [C12] statusfixed: status.Replicas == old7Replicas && status.ReadyReplicas == old7Ready && status.CurrentReplicas == old7Current && status.UpdatedReplicas == old7Updated
 //@     invariant [C07] higherupdated: forall o int :: {replicas[o]} {count(gS, 0, o)} target < o && o < len(replicas) && replicas[o] != nil ==> revOf(replicas[o]) == gUpdRev && isHealthyS(replicas[o])
+//@     invariant [C07] higherwitness: forall o int32 :: {count(gS, 0, o)} o > target && desiredG(o) ==> snapUpdatedAt(o)
 
 // ---- status (C12) -----------------------------------------------------------------------------------
 //@ spec func statusBounds(s *apps.StatefulSetStatus) bool = 0 <= s.ReadyReplicas && s.ReadyReplicas <= s.Replicas && 0 <= s.CurrentReplicas && s.CurrentReplicas <= s.Replicas && 0 <= s.UpdatedReplicas && s.UpdatedReplicas <= s.Replicas
@@ -517,7 +558,7 @@ package statefulset
 //@   ensures gCtlFails >= old(gCtlFails) && gWrites >= old(gWrites) && gStatusWrites >= old(gStatusWrites)
 //@   profile defaulted ensures [C11] quietwrites: gWrites - old(gWrites) == gStatusWrites - old(gStatusWrites)
 //@   profile defaulted ensures [C12] promote: status.CurrentRevision != old(status.CurrentRevision) ==> status.CurrentRevision == status.UpdateRevision && set.Spec.UpdateStrategy.Type == "RollingUpdate" && old(status.UpdatedReplicas) == old(status.Replicas) && old(status.ReadyReplicas) == old(status.Replicas)
-//@   profile defaulted ensures [C12] quiet: !old(inconsistentAfter(set, status)) ==> gStatusWrites == old(gStatusWrites)
+//@   profile defaulted ensures [C02,C12] quiet: !old(inconsistentAfter(set, status)) ==> gStatusWrites == old(gStatusWrites)
 //@   profile defaulted ensures [C12] atmostone: gStatusWrites <= old(gStatusWrites) + 1
 //@   profile defaulted ensures [C09] reported: result == nil ==> (gStatusWrites == old(gStatusWrites) || gStatusWrites == old(gStatusWrites) + 1)
 // inconsistentAfter: the status differs from the stored one once a completed rolling update has been folded in
@@ -677,7 +718,7 @@ package statefulset
 //@   ensures [C09] origin: result != nil ==> gApiFails > old(gApiFails)
 //@   profile defaulted ensures [C13] trimmed: result == nil ==> count(unusedI, 0, len(revisions)) - gRevDelCount <= deref(set.Spec.RevisionHistoryLimit)
 //@   profile defaulted ensures [C13] unusedchar: forall j int :: {revisions[j]} 0 <= j && j < len(revisions) ==> (unusedI[j] <==> !liveName(revisions[j].Name, current, update, pods))
-//@   profile defaulted ensures [C13] nomore: gRevDelCount <= count(unusedI, 0, len(revisions)) - deref(set.Spec.RevisionHistoryLimit) || gRevDelCount == 0
+//@   profile defaulted ensures [C02,C13] nomore: gRevDelCount <= count(unusedI, 0, len(revisions)) - deref(set.Spec.RevisionHistoryLimit) || gRevDelCount == 0
 //@   ensures [C09] writes: gWrites >= old(gWrites) && gApiFails >= old(gApiFails)
 //@   loop 1 "range pods"
 //@     invariant live != nil && fresh(live)
@@ -903,7 +944,7 @@ package statefulset
 //@   ensures permuted: forall i int :: {revisions[i]} 0 <= i && i < len(revisions) ==> 0 <= sortPerm(old(revisions), revisions, i) && sortPerm(old(revisions), revisions, i) < len(revisions) && revisions[i] == old(revisions)[sortPerm(old(revisions), revisions, i)]
 //@   ensures permutedinj: forall a int, b int :: {sortPerm(old(revisions), revisions, a), sortPerm(old(revisions), revisions, b)} 0 <= a && a < b && b < len(revisions) ==> sortPerm(old(revisions), revisions, a) != sortPerm(old(revisions), revisions, b)
 //@   ensures [C08] mirrors: err == nil ==> bytesId(upd.Data.Raw) == patchIdOf(set) || gApiFails > old(gApiFails)
-//@   ensures [C08] nonewrevision: (exists i int :: {revisions[i]} 0 <= i && i < len(revisions) && revEqualData(revisions[i], gNewRev)) ==> gRevCreates == old(gRevCreates)
+//@   ensures [C02,C08] nonewrevision: (exists i int :: {revisions[i]} 0 <= i && i < len(revisions) && revEqualData(revisions[i], gNewRev)) ==> gRevCreates == old(gRevCreates)
 //@   ensures [C08] rollbackabove: gRevUpdates > old(gRevUpdates) && err == nil ==> (forall i int :: {revisions[i]} 0 <= i && i < len(revisions) ==> revisions[i].Revision < upd.Revision || gApiFails > old(gApiFails))
 //@   ensures [C12] currentkept: err == nil && (exists i int :: {revisions[i]} 0 <= i && i < len(revisions) && revisions[i].Name == set.Status.CurrentRevision) ==> cur.Name == set.Status.CurrentRevision
 //@   ensures [C09] origin: err != nil ==> gApiFails > old(gApiFails) || errLocal(err)
